@@ -69,6 +69,37 @@ class CallHorizon(Horizon):
         return local
 
 
+_TOP_CACHE = {}
+
+
+def top_level_loops(filename, funcname):
+    """line numbers of the loop headers of `funcname` that are not nested in another loop (its pass loops)"""
+    import ast
+
+    key = (filename, funcname)
+    if key in _TOP_CACHE:
+        return _TOP_CACHE[key]
+    lines = set()
+    with open(filename) as fh:
+        tree = ast.parse(fh.read())
+
+    def walk(stmts):
+        for st in stmts:
+            if isinstance(st, (ast.For, ast.While)):
+                lines.add(st.lineno)
+                continue  # do not descend: nested loops are not pass loops
+            for field in ("body", "orelse", "finalbody", "handlers"):
+                sub = getattr(st, field, None)
+                if isinstance(sub, list):
+                    walk([x for x in sub if isinstance(x, ast.AST)])
+
+    for node in ast.walk(tree):
+        if isinstance(node, ast.FunctionDef) and node.name == funcname:
+            walk(node.body)
+    _TOP_CACHE[key] = lines
+    return lines
+
+
 # ------------------------------------------------------------------ orbital bookkeeping
 
 
